@@ -102,9 +102,11 @@ Definition name_diff (a1 a2 : oattr) : list entry :=
   if ostr_eqb (a_name a1) (a_name a2) then []
   else [EAttr (a_depth a1) (a_lidx a1) (DName (a_name a1) (a_name a2))].
 
-(* the types whose attribute union is compared with memcmp *)
+(* the types whose attribute union is compared with memcmp: every type that has
+   attributes except NUMA nodes (local_memory is diffable, page_types are
+   documented as ignored); memory-side caches since fix c1b2102 *)
 Definition memcmp_types : list N :=
-  [HWLOC_OBJ_L1CACHE; HWLOC_OBJ_L2CACHE; HWLOC_OBJ_L3CACHE; HWLOC_OBJ_L4CACHE; HWLOC_OBJ_L5CACHE;
+  [HWLOC_OBJ_MEMCACHE; HWLOC_OBJ_L1CACHE; HWLOC_OBJ_L2CACHE; HWLOC_OBJ_L3CACHE; HWLOC_OBJ_L4CACHE; HWLOC_OBJ_L5CACHE;
    HWLOC_OBJ_L1ICACHE; HWLOC_OBJ_L2ICACHE; HWLOC_OBJ_L3ICACHE;
    HWLOC_OBJ_GROUP; HWLOC_OBJ_PCI_DEVICE; HWLOC_OBJ_BRIDGE; HWLOC_OBJ_OS_DEVICE].
 Definition is_memcmp_type (t : N) : bool := existsb (N.eqb t) memcmp_types.
